@@ -541,6 +541,33 @@ func (pr *printer) listShape(fn *ssa.Function) (elem, sep []psym, err error) {
 			}
 		}
 	}
+	// the elements are taken from the list argument itself, in its order: every element
+	// access inside the loop indexes (or ranges over) the parameter, not a rearranged copy
+	for b := range l.Body {
+		for _, in := range view.Instrs(b) {
+			var base ssa.Value
+			switch x := in.(type) {
+			case *ssa.IndexAddr:
+				base = x.X
+			case *ssa.Index:
+				base = x.X
+			case *ssa.Range:
+				base = x.X
+			}
+			if base == nil {
+				continue
+			}
+			if _, isSl := base.Type().Underlying().(*types.Slice); !isSl {
+				continue
+			}
+			if !types.Identical(base.Type(), fn.Params[0].Type()) {
+				continue
+			}
+			if origin(base) != ssa.Value(fn.Params[0]) {
+				return nil, nil, fmt.Errorf("the loop takes its elements from %s, not from the list it was handed: a sorted, filtered or otherwise rearranged copy prints the elements in another order than the term holds them (at %s)", displayKey(base), pr.p.instrPos(in))
+			}
+		}
+	}
 	var ea, sa []Atom
 	for _, b := range fn.Blocks {
 		for _, in := range view.Instrs(b) {
